@@ -106,4 +106,40 @@ theorem C34_full_false : ¬ C34_full := fun h => by
   have := h (.float 0x7FF8000000000000) .null counterexample_nonfinite_is_null.1
   cases this
 
+
+/-! ### rows are converted independently of each other -/
+
+/-- what the source does today: `execute_read_rows` reifies every value of every row (regenerated; the recogniser
+    rejects a conversion that looks at other rows first) -/
+theorem reifies_per_row : Generated.capiReifiesPerRow = true := by decide
+
+/-- **rows_converted_independently**: the JSON of a result is the JSON of its first row followed by the JSON of
+    the rest — for every result, whatever the other rows hold (null, scalars, empty lists in some rows and nodes,
+    also nested, in others).  In particular the same row gives the same JSON in every result set it occurs in. -/
+theorem rows_converted_independently (look : Nat → Value) (r : Row) (rs : List Row) :
+    rowsJson look (r :: rs) = rowJson look r :: rowsJson look rs := by
+  simp [rowsJson, reifies_per_row]
+
+theorem row_json_context_free (look : Nat → Value) (r : Row) (before after before' after' : List Row) :
+    (rowsJson look (before ++ r :: after))[before.length]? = (rowsJson look (before' ++ r :: after'))[before'.length]? := by
+  simp [rowsJson, reifies_per_row]
+
+/-- a heterogeneous column: the first row holds null, the second a node reference -/
+def hetRows : List Row := [[("v", .null)], [("v", .nodeId 7)]]
+def hetLook : Nat → Value := fun id => .node id ["A"] (.cons "k" (.int 2) .nil)
+
+/-- non-vacuity: the node of the second row comes out materialised -/
+example : rowsJson hetLook hetRows = [rowJson hetLook [("v", .null)], rowJson hetLook [("v", .nodeId 7)]] := by
+  simp [rowsJson, reifies_per_row, hetRows]
+
+/-- **counterexample for a first-row policy** (the shape of seeded fault C34-seed1): deciding from the first row
+    which columns hold graph references leaves the node of a later row as a bare `{type: node_id, value: 7}`. -/
+theorem counterexample_first_row_policy :
+    rowsJsonFirstRowPolicy hetLook hetRows ≠ hetRows.map (rowJson hetLook) ∧
+      rowsJsonFirstRowPolicy hetLook hetRows.reverse = hetRows.reverse.map (rowJson hetLook) := by
+  constructor
+  · intro h
+    simp [rowsJsonFirstRowPolicy, hetRows, rowJson, holdsRef, reify, hetLook, toJson, toJsonKVs] at h
+  · simp [rowsJsonFirstRowPolicy, hetRows, rowJson, holdsRef, reify, hetLook, toJson, toJsonKVs]
+
 end Nervus.Props.C34
